@@ -896,6 +896,74 @@ theorem C14_binary_strip_cex :
         = .ok [[(.pos 0, some [fsep])]] :=
   ⟨by decide, by decide, by decide, by decide⟩
 
+/-- a UTF-8-like encoder, exact on ASCII and on U+00A0 (`C2 A0`) -/
+private def encN (c : Char) : Str :=
+  if c.toNat < 128 then [c] else if c = nbsp then [bC2, nbsp] else [Char.ofNat 0xBF]
+
+private theorem encN_transparent : AsciiTransparent encN := by
+  refine ⟨?_, ?_, ?_, ?_⟩
+  · intro c hc; simp [encN, hc]
+  · intro c hc b hb
+    unfold encN at hb
+    split at hb
+    · omega
+    · split at hb
+      · simp at hb; rcases hb with hb | hb <;> subst hb <;> decide
+      · simp at hb; subst hb; decide
+  · intro c; unfold encN; split
+    · simp
+    · split <;> simp
+  · intro c b hb
+    unfold encN at hb
+    split at hb
+    · simp at hb; subst hb; omega
+    · split at hb
+      · simp at hb; rcases hb with hb | hb <;> subst hb <;> decide
+      · simp at hb; subst hb; decide
+
+/-- **C14-g: the full statement fails** — table `h` / `x\xa0`, `header_is_mandatory=True`,
+`strip_field=True`, `read_mode='b'`: the record holds `x\xc2\xa0`, not the encoding of `x`. -/
+theorem C14_binary_strip_field_cex : ¬ C14_binary_strip_field_stmt := by
+  intro h
+  have := h encN encN_transparent ',' ⟨⟨by decide, by decide, by decide⟩, by decide⟩ (by decide)
+    LF (Or.inl rfl) [['h']] (by simp) (by decide) [[['x', nbsp]]]
+    (by unfold NoBreakRows NoBreak; decide)
+    { stripField := true, binary := true, mandatory := .bool true } ⟨rfl, rfl, rfl, rfl, rfl⟩ rfl
+    (.mandatory rfl rfl)
+  revert this
+  decide
+
+/-- **C14 (strip_line on clean lines, binary read mode).**  As `C14_strip_line_clean`, for
+`read_mode='b'`: on a byte table none of whose written lines begins or ends with an ASCII blank
+(in particular: with a `str.isspace()` character), `strip_line=True` changes nothing — so, by
+`C14_binary_encoded`, binary mode with `strip_line=True` still yields the encoded table. -/
+theorem C14_strip_line_clean_binary (d : Char) (hd : GoodDelim14 d) (eol : Str) (he : Eol eol)
+    (header : Option (List Str)) (rows : List (List Str)) (hc : NoBreakRows (allRows header rows))
+    (hcl : ∀ r ∈ allRows header rows, OuterClean isAsciiWsByte (bodyOf d LF r))
+    (o : Opts) (hp : Plain o d) (hb : o.binary = true) :
+    records (loadCsv { o with stripLine := true } (fileOf false d eol header rows))
+      = records (loadCsv o (fileOf false d eol header rows)) := by
+  rw [fileOf_eq]
+  simp only [withBom, Bool.false_eq_true, if_false]
+  exact csvb_strip_line_clean o hb d hd.1 hp eol he _ hc hcl
+
+/-- the hypothesis of `C14_strip_line_clean` (no `str.isspace()` character at an end of a written
+line) implies the one of `C14_strip_line_clean_binary` -/
+theorem C14_outer_clean_bytes (s : Str) (h : OuterClean isPySpace s) :
+    OuterClean isAsciiWsByte s :=
+  csvb_outerClean_mono isPySpace isAsciiWsByte csvb_ascii_ws_is_space s h
+
+/-- **load_native_csv, blank line before the header** (the standard `csv.DictReader`'s reading,
+not the table): left to find the field names itself (`column_names=None`), `DictReader` takes the
+first record even when it is the empty one, so every line comes back under the key `None`
+(`rest`), the header line included — while `load_csv` skips the blank line and yields the table.
+This is why `C14_native_header_from_file` is stated for files that begin with the header. -/
+theorem C14_native_leading_blank_cex :
+    nativeCsv { } ['\n', 'a', ',', 'b', '\n', '1', ',', '2', '\n']
+      = .ok [⟨[], some [['a'], ['b']]⟩, ⟨[], some [['1'], ['2']]⟩]
+    ∧ records (loadCsv { mandatory := .bool true } ['\n', 'a', ',', 'b', '\n', '1', ',', '2', '\n'])
+      = .ok [[(.name ['a'], some ['1']), (.name ['b'], some ['2'])]] := ⟨by decide, by decide⟩
+
 section NonVacuityReaders
 private def hdrP : List Str := [[' ', 'a'], ['b', ' ', ' ']]
 private def rowsP : List (List Str) := [[['1', ' '], [' ', '"', '2']], [], [[' ']], [['4'], [' '], ['6']]]
@@ -916,6 +984,26 @@ example : records (loadCsv { skipEmpty := false, mandatory := .bool true } (file
 example : OuterClean isPySpace ['a', ' ', 'b'] := by
   constructor <;> intro x hx <;> simp at hx <;> subst hx <;> decide
 example : PlainCell ',' ['a', ' ', 'b'] := by unfold PlainCell NoBreak; decide
+-- strip options in binary read mode: a table with U+00A0 *inside* cells and ASCII blanks around them is
+-- outside the class of C14-g; its UTF-8 bytes read with `strip_field=True`, `read_mode='b'`
+private def hdrN : List Str := [[' ', 'a', Char.ofNat 0xA0, 'b'], ['c', '\t']]
+private def rowsN : List (List Str) := [[['1', ' '], [' ', '2', Char.ofNat 0xA0, '3', ' ']], [], [['3']]]
+example : ∀ r ∈ hdrN :: rowsN, ∀ f ∈ r, EdgeAscii f := by unfold EdgeAscii; decide
+example : StripFieldBin { stripField := true, binary := true, mandatory := .bool true } ',' :=
+  ⟨rfl, rfl, rfl, rfl, rfl⟩
+example : records (loadCsv { stripField := true, binary := true, mandatory := .bool true }
+      (encS encN (fileOf false ',' CRLF (some hdrN) rowsN)))
+    = .ok [[(.name ['a', bC2, nbsp, 'b'], some ['1']), (.name ['c'], some ['2', bC2, nbsp, '3'])],
+           [(.name ['a', bC2, nbsp, 'b'], some ['3']), (.name ['c'], none)]] := by decide
+example : ¬ EdgeAscii ['x', Char.ofNat 0xA0] := by unfold EdgeAscii; decide
+example : ¬ EdgeAscii [Char.ofNat 0x1C, 'z'] := by unfold EdgeAscii; decide
+private def rowC : List Str := [[Char.ofNat 0xC2, Char.ofNat 0xA0, 'x'], ['y']]
+example : OuterClean isAsciiWsByte (bodyOf ',' LF rowC) := by
+  have h1 : (bodyOf ',' LF rowC).head? = some (Char.ofNat 0xC2) := by decide
+  have h2 : (bodyOf ',' LF rowC).getLast? = some 'y' := by decide
+  constructor
+  · intro x hx; rw [h1] at hx; cases hx; decide
+  · intro x hx; rw [h2] at hx; cases hx; decide
 -- load_native_csv: default arguments (fix C14-f), surplus cells under the key None, blank line skipped
 example : nativeCsv { } (fileOf true ',' CRLF (some hdrAB) rowsX)
     = .ok [⟨[(.name ['a'], some ['1']), (.name ['b', ','], some ['"', '2'])], none⟩,
